@@ -455,6 +455,9 @@ func checkMergeFilters(c *core.Ctx) {
 		if !strings.Contains(s, "SPLIT(node.Filter.Predicate)") || !strings.Contains(s, "SPLIT(node.Filter.Source.Filter.Predicate)") {
 			bad = "the merged filter must hold the conjuncts of both filters; it holds " + s
 		}
+		if i, j := strings.Index(s, "SPLIT(node.Filter.Source.Filter.Predicate)"), strings.Index(s, "SPLIT(node.Filter.Predicate)"); bad == "" && i > j {
+			bad = "the merged conjunction must keep the evaluation order of the two filters — the lower filter's conjuncts first: And evaluates left to right and stops at the first FALSE, so a lower conjunct (b != 0) guards an upper one (a / b > 0) from failing; it holds " + s
+		}
 		if src := fieldAt(o, ret, "Filter.Source"); src == nil || src.Canon() != "node.Filter.Source.Filter.Source" {
 			bad = "the merged filter must sit on the inner filter's source"
 		}
@@ -462,7 +465,7 @@ func checkMergeFilters(c *core.Ctx) {
 			bad = "the merged predicate must be a conjunction"
 		}
 	}
-	c.Decide(bad == "" && len(outs) > 0, "OPT1", key, lit.Pos(), len(outs), "AND of both filters' conjuncts over the inner source", bad)
+	c.Decide(bad == "" && len(outs) > 0, "OPT1", key, lit.Pos(), len(outs), "AND of the inner, then the outer filter's conjuncts over the inner source", bad)
 }
 
 // checkIsUsed (OPT4).
